@@ -20,8 +20,10 @@ EXTENDS Auth, Json
 
 Trace == ndJsonDeserialize("trace.ndjson")
 
-\* the code as it is (see NOTES-auth.md): the strict lane follows the code, deviations included
-t_DEVS == {"DEV_OracleSigIgnored", "DEV_ChallengeNoOwner", "DEV_OperatorBySender"}
+\* the code as it is (see NOTES-auth.md): the strict lane follows the code, deviations included.
+\* DEV_OracleSigIgnored left the set with fix 873f403 (the oracle branch now uses the result of
+\* VerifySignature).
+t_DEVS == {"DEV_ChallengeNoOwner", "DEV_OperatorBySender"}
 
 VARIABLES l, S, mn
 vars == <<l, S, mn>>
@@ -45,6 +47,7 @@ FromLog(j, mainnet) ==
     round    |-> j.round,
     pv       |-> [m \in DOMAIN j.pv |-> j.pv[m]],
     assoc    |-> Range(j.assoc),
+    natdel   |-> Range(j.natdel),
     newtoken |-> j.newtoken,
     chain102 |-> j.chain102,
     tokmeta  |-> j.tokmeta,
@@ -60,10 +63,14 @@ PropertyTags(pre, post, e, c, mods) ==
 \* not violations: an unauthorised call that is answered with `true` / empty output / code 0 but
 \* changes nothing (DESIGN C10, lead L21)
 NoteTags(pre, post, e, c, mods, line) ==
-  (IF ~StmtAuthorized(pre, e, c) /\ post = pre /\ mods = {} /\ (line.ok \/ line.out = "empty")
+  (IF c.via # "check" /\ ~StmtAuthorized(pre, e, c) /\ post = pre /\ mods = {} /\ (line.ok \/ line.out = "empty")
    THEN {"NOTE_SilentReject"} ELSE {}) \cup
-  (IF StmtAuthorized(pre, e, c) /\ post = pre /\ mods = {} /\ line.ok
-   THEN {"NOTE_SuccessWithoutEffect"} ELSE {})
+  (IF c.via # "check" /\ StmtAuthorized(pre, e, c) /\ post = pre /\ mods = {} /\ line.ok
+   THEN {"NOTE_SuccessWithoutEffect"} ELSE {}) \cup
+  \* CheckTx runs the ante handlers only: a validly signed tx whose MESSAGE will be refused at
+  \* delivery (wrong authority, operator mismatch) is admitted to the mempool
+  (IF c.via = "check" /\ ~StmtAuthorized(pre, e, c) /\ line.ok
+   THEN {"NOTE_AdmittedByCheckTx"} ELSE {})
 
 \* strict lane
 StrictTags(pre, post, e, c, mods, ok) ==
